@@ -2,10 +2,13 @@
 """seed_eval.py SEED_DIR [--props C04,C10] [--tier quick] [--skip-confirm]
 Confirms a seeded change (patch.diff + demo.rs + meta.json) in a scratch worktree of /repo and runs the
 checks against that worktree (PV_REPO), without touching /repo. Prints a JSON summary."""
-import sys, os, json, subprocess, shutil, re, time
+import sys, os, json, subprocess, shutil, re, time, hashlib
 
 def sh(cmd, **kw):
     return subprocess.run(cmd, shell=True, stdout=subprocess.PIPE, stderr=subprocess.STDOUT, text=True, **kw)
+
+ROOT = os.path.dirname(os.path.dirname(os.path.abspath(__file__)))     # the /verif this script belongs to (or a snapshot of it)
+
 
 def main():
     seed = os.path.abspath(sys.argv[1])
@@ -14,7 +17,7 @@ def main():
     meta = json.load(open(os.path.join(seed, "meta.json")))
     props = args[args.index("--props") + 1].split(",") if "--props" in args else [meta["property"]]
     name = os.path.basename(seed.rstrip("/"))
-    wt = "/tmp/wt/ev-" + name
+    wt = "/tmp/wt/ev-%s-%s" % (name, hashlib.sha1(ROOT.encode()).hexdigest()[:6])
     sh("git -C /repo worktree remove --force %s" % wt)
     shutil.rmtree(wt, ignore_errors=True)
     r = sh("git -C /repo worktree add -q --detach %s HEAD" % wt)
@@ -41,7 +44,7 @@ def main():
         out["checks"] = {}
         for p in props:
             t0 = time.time()
-            c = sh("cd /verif && PV_REPO=%s ./check %s %s" % (wt, p, tier))
+            c = sh("cd %s && PV_REPO=%s ./check %s %s" % (ROOT, wt, p, tier))
             v = [l for l in c.stdout.splitlines() if l.startswith("VIOLATION")]
             detail = [l.strip() for l in c.stdout.splitlines() if l.startswith("  ")][:3]
             out["checks"][p] = {"exit": c.returncode, "violations": len(v), "detail": detail, "s": round(time.time() - t0)}
@@ -50,8 +53,8 @@ def main():
     finally:
         sh("git -C /repo worktree remove --force %s" % wt)
         shutil.rmtree(wt, ignore_errors=True)
-        shutil.rmtree(os.path.join("/verif/harness/target", "alt-" + __import__("hashlib").sha1(wt.encode()).hexdigest()[:10]), ignore_errors=True)
-        shutil.rmtree(os.path.join("/verif/out", "alt-" + __import__("hashlib").sha1(wt.encode()).hexdigest()[:10]), ignore_errors=True)
+        shutil.rmtree(os.path.join(ROOT, "harness/target", "alt-" + __import__("hashlib").sha1(wt.encode()).hexdigest()[:10]), ignore_errors=True)
+        shutil.rmtree(os.path.join(ROOT, "out", "alt-" + __import__("hashlib").sha1(wt.encode()).hexdigest()[:10]), ignore_errors=True)
     print(json.dumps(out, indent=1))
 
 main()
